@@ -3,11 +3,10 @@
          is decided as the code decides it (`ndim > 1 and shape[-1] == 1`) on the result of every modelled observation map;
    (iii) SteadyStateLinearPDE.solve under every return convention of linalg_solve the code accepts;
    (iv)  solutions with two space axes: final-time restriction, restriction at coinciding stored times, refusal otherwise. *)
-From CV Require Import Base.Tac Base.LinAlg Base.Cmp Base.QcLin Model.C18_Spline Model.C18_PDE Proofs.C18_Alg Proofs.C18_PDE.
+From CV Require Import Base.Tac Base.LinAlg Base.Cmp Base.QcLin Model.C18_Spline Model.C18_PDE Proofs.C18_Alg Proofs.C18_PDE Proofs.C18_Spline.
 From Coq Require Import QArith Qcanon.
 Local Open Scope Qc_scope.
 
-Ltac nlia := unfold vec, mat, qv, qm in *; lia.
 
 (* ================= (ii) squeeze ================= *)
 (* the values of an array in C order (numpy's .ravel()) *)
@@ -226,3 +225,121 @@ Example ex_squeeze :
 Proof.
   split; [split; [reflexivity | repeat constructor]|]. repeat split; vm_compute; reflexivity.
 Qed.
+
+(* ================= (ii) tied to td_observe as it runs: ONE observation time ================= *)
+Lemma nth_map_hd (m : qm) i : nth i (map (fun row => hd 0 row) m) 0 = nth 0 (nth i m []) 0.
+Proof.
+  revert i; induction m as [|r m IH]; intros [|i]; simpl; try reflexivity.
+  - destruct r; reflexivity.
+  - apply IH.
+Qed.
+
+(* spline route, one observation time, no observation map: the (n_obs, 1) answer of the spline loses exactly its time axis -- a
+   vector with one entry per observation node, ALSO for a single observation node --, and the entry of a node that is a solution
+   node at a time that is a time step is the stored value *)
+Theorem td_observe_cubic_single_time Q (G : grids) gs go times t levels m :
+  g_eq G && time_test Q times [t] = false -> coincide_restriction Q G times [t] levels = None ->
+  g_sol G = Some gs -> g_obs G = Some go ->
+  interp2_cubic gs times levels go [t] = Ok m ->
+  let v := map (fun row => hd 0 row) m in
+  td_observe Q None interp2_cubic G times [t] levels = Ok (true, A1 v) /\
+  length v = length go /\
+  forall i a b, nth_error go i = nth_error gs a -> nth_error go i <> None -> nth_error times b = Some t ->
+                nth i v 0 = nth a (nth b levels []) 0.
+Proof.
+  intros Hb Hc Hs Ho Hm v.
+  destruct (interp2_cubic_shape _ _ _ _ _ _ Hm) as [Lm Fm].
+  split; [|split].
+  - rewrite (observe_interp_general Q None interp2_cubic G gs go times [t] levels Hb Hc Hs Ho). rewrite Hm.
+    cbn [apply_obsmap length Nat.eqb].
+    rewrite (squeeze_guard (length go) 1 m (conj Lm Fm)). reflexivity.
+  - unfold v. rewrite map_length. exact Lm.
+  - intros i a b Hi Hin Hbt. unfold v. rewrite nth_map_hd.
+    apply (interp2_cubic_exact_at_nodes gs times levels go [t] m Hm i 0%nat a b Hi Hin); cbn [nth_error]; [symmetry; exact Hbt | discriminate].
+Qed.
+
+(* restriction at coinciding nodes and times, one observation time, no observation map: same shape rule *)
+Lemma restrict_to_rect rows cols levels : rect (length rows) (length cols) (restrict_to rows cols levels).
+Proof.
+  unfold restrict_to. split; [apply map_length|].
+  apply Forall_forall. intros row Hin. apply in_map_iff in Hin as [a [<- _]]. apply map_length.
+Qed.
+
+Theorem td_observe_coinciding_single_time Q interp2 (G : grids) times t levels m :
+  g_eq G && time_test Q times [t] = false -> coincide_restriction Q G times [t] levels = Some m ->
+  td_observe Q None interp2 G times [t] levels = Ok (false, A1 (map (fun row => hd 0 row) m)).
+Proof.
+  intros Hb Hc. rewrite (observe_coinciding Q None interp2 G times [t] levels m Hb Hc). cbn [apply_obsmap length Nat.eqb].
+  assert (R : exists r, rect r 1 m).
+  { unfold coincide_restriction in Hc. destruct (q_spline_route Q); [discriminate|].
+    destruct (coincide_rows Q G levels) as [rows|]; [|discriminate].
+    destruct (coincide_cols times [t]) as [cols|] eqn:Ec; [|discriminate]. injection Hc as <-.
+    assert (Lc : length cols = 1%nat).
+    { unfold coincide_cols in Ec. destruct (opt_all_spec _ _ _ Ec) as [L _]. exact L. }
+    exists (length rows). rewrite <- Lc. apply restrict_to_rect. }
+  destruct R as [r Hr]. rewrite (squeeze_guard r 1 m Hr). reflexivity.
+Qed.
+
+(* ================= what the in-model routines REFUSE ================= *)
+(* interp1d(kind='quadratic'): fewer than 3 nodes, a solution of another length, an observation point outside [min, max] *)
+Theorem interp1_quad_refuses gs sol go :
+  ((length gs < 3)%nat \/ length sol <> length gs \/ exists x, In x go /\ in_range gs x = false) ->
+  interp1_quad gs sol go = Er EValue.
+Proof.
+  intros H. unfold interp1_quad.
+  destruct ((length gs <? 3)%nat || negb (length sol =? length gs)%nat || negb (forallb (in_range gs) go)) eqn:E; [reflexivity|].
+  exfalso. apply orb_false_iff in E as [E E3]. apply orb_false_iff in E as [E1 E2].
+  apply Nat.ltb_ge in E1. apply negb_false_iff in E2. apply Nat.eqb_eq in E2. apply negb_false_iff in E3.
+  destruct H as [H|[H|[x [Hin Hx]]]]; [nlia | contradiction |].
+  rewrite forallb_forall in E3. rewrite (E3 x Hin) in Hx. discriminate.
+Qed.
+
+(* RectBivariateSpline: nodes or times not strictly increasing -> ValueError; fewer than 4 of either (shape and order being
+   right) -> fitpack's error *)
+Theorem interp2_cubic_refuses gs ts sol go to :
+  ((strictly_inc gs = false \/ strictly_inc ts = false) -> interp2_cubic gs ts sol go to = Er EValue) /\
+  (strictly_inc gs = true -> strictly_inc ts = true ->
+   length sol = length ts -> Forall (fun lv => length lv = length gs) sol ->
+   ((length gs < 4)%nat \/ (length ts < 4)%nat) -> interp2_cubic gs ts sol go to = Er EOther).
+Proof.
+  unfold interp2_cubic. split.
+  - intros [H|H]; rewrite H; cbn [negb orb]; [reflexivity|]. rewrite orb_true_r. reflexivity.
+  - intros Hg Ht Hl Hw Hn. rewrite Hg, Ht. cbn [negb orb].
+    assert (E : ((length sol =? length ts)%nat && forallb (fun lv => (length lv =? length gs)%nat) sol) = true).
+    { apply andb_true_iff. split; [apply Nat.eqb_eq; exact Hl|]. apply forallb_forall. intros lv Hin.
+      rewrite Forall_forall in Hw. apply Nat.eqb_eq. apply Hw. exact Hin. }
+    rewrite E. cbn [negb].
+    assert (E2 : ((length gs <? 4)%nat || (length ts <? 4)%nat) = true).
+    { apply orb_true_iff. destruct Hn as [Hn|Hn]; [left|right]; apply Nat.ltb_lt; exact Hn. }
+    rewrite E2. reflexivity.
+Qed.
+
+(* THE OPEN FINDING with the routine that runs (today's tree: q_subgrid_route = true): an observation grid that differs from
+   the solution grid -- also one whose nodes are all solution nodes, at times that are all time steps -- goes through the
+   spline, which refuses fewer than 4 nodes or 4 time levels; `exactly at coinciding nodes and times` fails there *)
+Theorem observe_subgrid_refused_cubic Q (G : grids) gs go times tobs levels :
+  q_subgrid_route Q = true -> g_eq G = false -> g_sol G = Some gs -> g_obs G = Some go ->
+  strictly_inc gs = true -> strictly_inc times = true ->
+  length levels = length times -> Forall (fun lv => length lv = length gs) levels ->
+  ((length gs < 4)%nat \/ (length times < 4)%nat) ->
+  td_observe Q None interp2_cubic G times tobs levels = Er EOther.
+Proof.
+  intros Hq Hg Hs Ho Ig It Hl Hw Hn.
+  assert (Hc : coincide_restriction Q G times tobs levels = None).
+  { unfold coincide_restriction. destruct (q_spline_route Q); [reflexivity|].
+    unfold coincide_rows. rewrite Hg, Hq. reflexivity. }
+  assert (Hb : g_eq G && time_test Q times tobs = false) by (rewrite Hg; reflexivity).
+  rewrite (observe_interp_general Q None interp2_cubic G gs go times tobs levels Hb Hc Hs Ho).
+  rewrite (proj2 (interp2_cubic_refuses gs times levels go tobs) Ig It Hl Hw Hn). reflexivity.
+Qed.
+
+(* the witness of the finding: 4 nodes, 3 levels, the two inner nodes observed at the final time *)
+Example ex_subgrid_refused :
+  let gs := qvec [0 # 1; 1 # 2; 1 # 1; 3 # 2] in let go := qvec [1 # 2; 1 # 1] in
+  let times := qvec [0 # 1; 1 # 4; 1 # 2] in
+  let levels := [qvec [1 # 1; 2 # 1; 3 # 1; 4 # 1]; qvec [2 # 1; 3 # 1; 4 # 1; 5 # 1]; qvec [3 # 1; 5 # 1; 7 # 1; 9 # 1]] in
+  let G := init_grids (Some gs) (Some go) in
+  g_eq G = false /\ strictly_inc gs = true /\ strictly_inc times = true /\
+  td_observe quirks_minimal None interp2_cubic G times (qvec [1 # 2]) levels = Er EOther /\
+  td_observe quirks_repaired None interp2_cubic G times (qvec [1 # 2]) levels = Ok (false, A1 (qvec [5 # 1; 7 # 1])).
+Proof. repeat split; vm_compute; reflexivity. Qed.
